@@ -111,5 +111,9 @@ class AsyncGraphNodeExecutor:
                 output_params=result.pause.output_params,
                 values=result.pause.values,
             )
-            raise PauseExecution(nested_pause)
+            pause = PauseExecution(nested_pause)
+            # What the nested run had computed before it paused belongs to the values
+            # computed before the pause, under the names this node exposes
+            pause.nested_values = node.map_outputs_from_original(result.values)  # type: ignore[attr-defined]
+            raise pause
         return node.map_outputs_from_original(result.values)
